@@ -20,6 +20,7 @@ void  vrt_log_raw(const char *fmt, ...);
 
 /* ---- schedule perturbation ---- */
 void  vrt_perturb(int percent, unsigned seed);   /* 0 = off */
+void  vrt_perturb_focus(const char *name, int pct, int usec);
 
 /* ---- allocation tracking and fault injection ---- */
 typedef struct { void *p; size_t size; const char *file; int line; long id; } vrt_block_t;
